@@ -810,6 +810,12 @@ def evaluate(chk, ok, results, py_bad):
                               {"what": what + " (the theorems of Prop_C29 no longer speak about this code)", **det},
                               no_input=not py_bad)
             spec_bad = {(meta[j][1], meta[j][2]) for j in r[1]}
+            for j in r[2][:3]:
+                chk.violation("correspondence",
+                              {"what": "a vdb install scenario does not satisfy the hypotheses of the theorem "
+                                       "vdb_install_complete (Spec_C29.install_hyps_ok): item names not distinct, "
+                                       "a metadata key of the check not staged, or the package already bound",
+                               "scenario": results[meta[j][1]]["sc"]}, no_input=not py_bad)
     # ---- B: property failures
     for b in py_bad[:5]:
         chk.violation("property", {"what": b["what"], "input": b})
@@ -839,14 +845,15 @@ def eval_sharded(chk, pre, cases, meta, nsc, per_shard=2):
         sel = [j for j, m in enumerate(meta) if m[1] in g]
         preamble = "\n".join([pre[0]] + [pre[1 + 3 * i + d] for i in g for d in range(3)])
         r = chk.coq_eval(f"probe{gi}", IMPORTS, "probe", [cases[j] for j in sel],
-                         ["where_ probe_bad cases", "where_ spec_bad cases"], shard=100000, preamble=preamble)
+                         ["where_ probe_bad cases", "where_ spec_bad cases", "where_ hyps_bad cases"],
+                         shard=100000, preamble=preamble)
         return None if r is None else [[sel[x] for x in lst] for lst in r]
 
     with cf.ThreadPoolExecutor(max_workers=6) as ex:
         outs = list(ex.map(one, enumerate(groups)))
     if any(o is None for o in outs):
         return None
-    return [sorted(x for o in outs for x in o[0]), sorted(x for o in outs for x in o[1])]
+    return [sorted(x for o in outs for x in o[k]) for k in range(3)]
 
 
 def replay(chk, data):
